@@ -4,7 +4,7 @@
    about graph structure (blank-node inlining, lists, RDF/XML, JSON-LD, HexTuples, prefixes, numeric
    shorthand) is conformance testing in harness/c03.py and has no theorem here.
    Proofs are in Codec/Proofs.v. *)
-From RV Require Import Codec.Model Codec.Proofs Codec.TurtleProofs Codec.Hext.
+From RV Require Import Codec.Model Codec.Proofs Codec.TurtleProofs Codec.Hext Codec.TurtleList.
 
 (* K1. The four chained str.replace calls of nt._quote_encode are one pass over the characters. *)
 Theorem C03_nt_quote_one_pass : forall s, nt_encode_body s = flat_map nt_esc1 s.
@@ -137,6 +137,57 @@ Print Assumptions C03_hext_row_roundtrip_refuted.
 Theorem C03_hx_spec_model_partial : forall c, hx_kf c = 0 -> hx_spec c (hx_model c) = true.
 Proof. exact hx_spec_model. Qed.
 Print Assumptions C03_hx_spec_model_partial.
+
+(* K4, first part: the list decisions of the Turtle-family serialisers (isValidList, doList as repaired by ec2790c6,
+   fdf8d16b, c1984258) over a graph given as its triples in store order.  isValidList ends on every graph ... *)
+Theorem C03_turtle_isValidList_terminates : forall g ser head, is_valid_list g ser head <> None.
+Proof. exact is_valid_list_terminates. Qed.
+Print Assumptions C03_turtle_isValidList_terminates.
+
+(* ... and what it accepts is a proper collection: distinct cells from the head to rdf:nil, each carrying exactly one
+   rdf:first and one rdf:rest triple and nothing else, the inner cells referenced once and not yet written - so
+   ( m1 ... mn ) denotes exactly the triples of those cells and no label of theirs is needed anywhere else. *)
+Theorem C03_turtle_isValidList_sound : forall g ser head, is_valid_list g ser head = Some true ->
+  exists cells, chain_to_nil g head cells /\ NoDup cells /\
+    forall c, In c cells -> c <> head -> refs g c = 1%N /\ memN c ser = false.
+Proof. exact is_valid_list_sound. Qed.
+Print Assumptions C03_turtle_isValidList_sound.
+
+Theorem C03_turtle_cell_shape : forall g l, cell_ok g l = true ->
+  exists f r, (po_of g l = [(FIRST, f); (REST, r)] \/ po_of g l = [(REST, r); (FIRST, f)]) /\
+              value g l FIRST = Some f /\ value g l REST = Some r.
+Proof. exact cell_ok_shape. Qed.
+Print Assumptions C03_turtle_cell_shape.
+
+(* doList writes exactly the members of that collection, cell by cell, and stops.  FULL STATEMENT (does not hold for
+   the loop in the tree, "while l_:"): no hypothesis on rdf:nil.  With "rdf:nil has neither rdf:first nor rdf:rest": *)
+Theorem C03_turtle_doList_partial : forall g falsy cells l fuel, chain_to_nil g l cells ->
+  value g NIL REST = None -> value g NIL FIRST = None -> memN NIL falsy = false ->
+  (forall c, In c cells -> memN c falsy = false) -> (length cells < fuel)%nat ->
+  exists items, do_list g falsy fuel l = Some (combine cells items) /\ length items = length cells /\
+    Forall2 (fun c i => value g c FIRST = Some i) cells items.
+Proof. exact do_list_ok. Qed.
+Print Assumptions C03_turtle_doList_partial.
+
+(* F15r: a graph that isValidList accepts and on which doList never ends, whatever the fuel; the repaired loop
+   (while l_ != rdf:nil, notes/C03_repairs/08_F15r.diff) ends on it *)
+Theorem C03_turtle_doList_refuted :
+  is_valid_list w_f15r [] 20%N = Some true /\ (forall fuel, do_list w_f15r [] fuel 20%N = None) /\
+  tl_kf {| tg := w_f15r; tser := []; tfalsy := []; thead := 20%N |} = 1%N /\
+  exists r, do_list_fixed w_f15r 5 20%N = Some r.
+Proof. exact f15r_refuted. Qed.
+Print Assumptions C03_turtle_doList_refuted.
+
+(* the repaired doList needs no hypothesis *)
+Theorem C03_turtle_doList_fixed : forall g cells l fuel, chain_to_nil g l cells -> (length cells <= fuel)%nat ->
+  exists items, do_list_fixed g fuel l = Some (combine cells items) /\ length items = length cells /\
+    Forall2 (fun c i => value g c FIRST = Some i) cells items.
+Proof. exact do_list_fixed_ok. Qed.
+Print Assumptions C03_turtle_doList_fixed.
+
+Theorem C03_tl_spec_model_partial : forall c, tl_wf c = true -> tl_kf c = 0%N -> tl_spec c (tl_model c) = true.
+Proof. exact tl_spec_model. Qed.
+Print Assumptions C03_tl_spec_model_partial.
 
 (* graph-level suite: no model; the checker only says "the round trip was fine" *)
 Theorem C03_rt_spec_model : forall c, rt_kf c = 0 -> rt_spec c (rt_model c) = true.
